@@ -7,6 +7,7 @@ use crate::rng::Rng;
 struct Layout {
     crlf: bool,
     sloppy: bool,
+    size: usize,
 }
 
 fn nl(d: &mut Doc, l: &Layout) {
@@ -50,7 +51,13 @@ fn comment_line(rng: &mut Rng, d: &mut Doc, l: &Layout) {
         b"c \xc3\xa4\xff",
         b"cxyz",
     ];
-    d.tok(TokKind::Text, *rng.pick(&texts));
+    if let Some(t) = super::long_text(rng, l.size, 2) {
+        let mut line = b"c ".to_vec();
+        line.extend(t);
+        d.tok(TokKind::Text, &line);
+    } else {
+        d.tok(TokKind::Text, *rng.pick(&texts));
+    }
     nl(d, l);
 }
 
@@ -90,18 +97,19 @@ pub fn gen(rng: &mut Rng, cfg: &PCfg, size: usize) -> Doc {
     let l = Layout {
         crlf: rng.chance(1, 5),
         sloppy: rng.chance(1, 2),
+        size,
     };
     let max = cfg.max_dimacs();
     let n_clauses = match size {
         0 => rng.below(4),
-        1 => rng.below(12),
+        1 | 4 => rng.below(12),
         // rare "huge" documents: beyond two default chunks, so that realign runs with the
         // shipped chunk size too
         3 => rng.range(3000, 5000),
         _ => rng.range(8, 60),
     };
     let has_header = rng.chance(7, 10);
-    let density = *rng.pick(&[0usize, 0, 1, 3]);
+    let density = if size == 4 { 3 } else { *rng.pick(&[0usize, 0, 1, 3]) };
     // declared counts (0 = unspecified)
     let var_count: i128 = if rng.chance(1, 5) {
         0
